@@ -23,7 +23,8 @@ UNKNOWN_FLAGS = ["-fweird", "-Wall", "-std=c99", "-march=native", "-fPIC", "-pth
 UNKNOWN_COMPILERS = ["mycc", "xlc9", "tool-cc", "/opt/bin/zzcc"]
 KNOWN_COMPILERS = ["gcc", "g++", "clang", "clang++", "icx", "icpx", "/usr/bin/gcc", "/opt/llvm/bin/clang++", "nvcc"]
 BENIGN_PRAGMAS = ["#pragma omp parallel for", "#pragma GCC diagnostic push", "#pragma unroll 4"]
-PASS_MACROS = ["__CUDA_ARCH__", "__SYCL_DEVICE_ONLY__", "_OPENMP", "__NVCC__"]
+PASS_MACROS = ["__CUDA_ARCH__", "__SYCL_DEVICE_ONLY__", "_OPENMP", "__NVCC__", "SYCL_LANGUAGE_VERSION", "__SPIR__",
+               "__NVPTX__"]
 UNKNOWN_DIRECTIVES = ["#frobnicate x", "#ident \"v1\"", "#assert machine(x)", "#sccs \"x\"",
                       "#import_x y"]
 EXEMPT_DIRECTIVES = ["#line 7", "#warning careful", "#error never", "#"]
@@ -220,6 +221,8 @@ def draw_cfg(r, profile):
     if profile in ("c08", "c14", "c15"):
         # macro-rich verbatim snippets: only for engines whose oracle is CBI-vs-CBI
         c["p_raw"] = r.choice([0.0, 0.04, 0.08])
+        c["builtin_pass_flags"] = r.random() < 0.4
+        c["shared_db"] = r.random() < 0.15
     if profile == "c15":
         c["n_plat"] = r.choice([1, 2, 3])
         c["decorate"] = True
@@ -307,6 +310,16 @@ class Gen:
             sp = r.choice(h["dirsp"])
         if form == "m":
             val = f'"{sp}"' if r.random() < 0.6 else f"<{sp}>"
+            if r.random() < 0.35:
+                # platform-specific header selection: which header (and which form) depends on a -D flag
+                other = r.choice(headers)["name"] if headers else sp
+                if self.cfg["faults"].get("missing_include") and r.random() < 0.5:
+                    other = r.choice(self.missing_pool)
+                val2 = f'"{other}"' if r.random() < 0.5 else f"<{other}>"
+                return [["undef", "HDR"],
+                        ["cond", [["ifdef", r.choice(FLAG_MACROS), [["define", "HDR", val]]],
+                                  ["else", None, [["define", "HDR", val2]]]]],
+                        ["include", "m", "HDR"]]
             if r.random() < 0.5:
                 # one macro name re-used for several computed includes, redefined in between
                 return [["undef", "HDR"], ["define", "HDR", val], ["include", "m", "HDR"]]
@@ -485,6 +498,10 @@ class Gen:
             if not ents and r.random() < 0.8:
                 ents.append(self.entry(r.choice(srcs), inc_pool, hdrs))
             ents = self.add_db_faults(ents)
+            if cfg.get("shared_db") and plats and r.random() < 0.5:
+                # two platforms that name one and the same database file
+                plats.append({"name": name, "db": plats[-1]["db"], "entries": [dict(e) for e in plats[-1]["entries"]]})
+                continue
             plats.append({"name": name, "db": f"proj/db/{name}.json", "entries": ents})
         files.update(self.extra_files)
         w = {"root": ROOT, "files": files, "dirs": dirs, "links": links, "platforms": plats,
@@ -536,6 +553,9 @@ class Gen:
         incs = []
         for d in r.sample(inc_pool, r.randint(0, min(3, len(inc_pool)))):
             incs.append(["isystem" if r.random() < cfg["p_isystem"] else "I", d])
+        if incs and r.random() < 0.15:
+            # a build system that repeats a directory (same kind, so that a compiler simply ignores the repeat)
+            incs.append(list(r.choice(incs)))
         forced = []
         for _ in range(2 if (hdrs and r.random() < cfg["p_forced"]) else 0):
             if forced and r.random() < 0.6:
@@ -561,8 +581,21 @@ class Gen:
             comp = r.choice(UNKNOWN_COMPILERS)
         if f.get("unknown_flag") and r.random() < f["unknown_flag"]:
             extra = r.sample(UNKNOWN_FLAGS, r.randint(1, 2))
-        if r.random() < 0.15 and os.path.basename(comp) in ("gcc", "g++", "clang", "clang++", "icx", "icpx", "nvcc"):
-            extra = extra + ["-fopenmp"]
+        if r.random() < 0.15:
+            extra = extra + ["-fopenmp"]     # a known flag for the built-in compilers, an unknown one for others
+        if extra and r.random() < 0.15:
+            extra = extra + [extra[0]]       # the same flag twice
+        if cfg.get("builtin_pass_flags") and r.random() < 0.5:
+            # pass/mode selecting flags of the built-in compiler definitions (model-free engines only)
+            base = os.path.basename(comp)
+            if base == "nvcc":
+                extra = extra + r.choice([["--gpu-architecture=sm_80"], [["-gencode", "arch=compute_75,code=sm_75"]],
+                                          [["--gpu-architecture", "sm_90"], ["--gpu-code", "sm_80"]]])
+            elif base in ("icx", "icpx"):
+                extra = extra + r.choice([["-fsycl"], ["-fsycl", "-fsycl-targets=spir64_gen,spir64_x86_64"],
+                                          ["-fsycl-targets=nvptx64-nvidia-cuda"]])
+            elif base in ("clang", "clang++"):
+                extra = extra + ["-fsycl-is-device"]
         return {"src": src, "defs": defs, "incs": incs, "forced": forced, "compiler": comp,
                 "extra": extra}
 
@@ -606,6 +639,18 @@ class Gen:
                 lp = os.path.join(parent, "L" + name)
                 links.append({"path": lp, "target": name, "kind": "dir"})
                 dir_links[d] = lp
+                k2 = r.random()
+                if k2 < 0.2:
+                    # a link to the link (chain)
+                    lp2 = os.path.join(parent, "M" + name)
+                    links.append({"path": lp2, "target": "L" + name, "kind": "dir"})
+                    dir_links[d] = r.choice([lp, lp2])
+                elif k2 < 0.4:
+                    # a second, absolute link to the same directory
+                    lp2 = os.path.join(parent, "N" + name)
+                    links.append({"path": lp2, "target": os.path.join(TOP, d), "kind": "dir"})
+                    self.second_dir_links = getattr(self, "second_dir_links", {})
+                    self.second_dir_links[d] = lp2
         for f in sorted(files):
             if r.random() < self.cfg.get("p_filelink", 0.3):
                 parent, name = os.path.split(f)
@@ -643,7 +688,11 @@ class Gen:
                     out = file_links[out]
                 for d in sorted(dir_links, key=len, reverse=True):
                     if (out == d or out.startswith(d + "/")) and r.random() < 0.7:
-                        out = dir_links[d] + out[len(d):]
+                        via = dir_links[d]
+                        second = getattr(self, "second_dir_links", {}).get(d)
+                        if second and r.random() < 0.5:
+                            via = second     # two different links to one directory used in one analysis
+                        out = via + out[len(d):]
                         break
                 if r.random() < 0.3:
                     parts = out.split("/")
@@ -670,7 +719,9 @@ class Gen:
                 argv += ["-I" if kind == "I" else "-isystem", os.path.join(TOP, d)]
             for f in sem["forced"]:
                 argv += ["-include", f]
-            argv += list(sem["extra"]) + ["-c", e["file"]]
+            for x in sem["extra"]:
+                argv += list(x) if isinstance(x, list) else [x]
+            argv += ["-c", e["file"]]
             e["arguments"] = argv
             return e
         # directory
@@ -725,7 +776,7 @@ class Gen:
         for f in sem["forced"]:
             opts.append(["-include", os.path.join(TOP, alias(f[len(TOP) + 1:])) if f.startswith(TOP + "/") else f])
         for x in sem["extra"]:
-            opts.append([x])
+            opts.append(list(x) if isinstance(x, list) else [x])     # a flag and its value stay together
         # Order among -D/-I/-isystem/-include groups is kept (it is semantic); unknown flags and
         # -c/-o are interleaved freely.
         misc = [["-c"], ["-o", "out.o"], ["-O2"], ["-g"]]
